@@ -72,6 +72,31 @@ func Load(repoDir string, extraContracts []string) (*Program, error) {
 	}
 	for f := range ssautil.AllFunctions(prog) {
 		p.Funcs[fnKey(f)] = f
+		// generic bodies: verified once with the type parameter as an uninterpreted sort
+		if o := f.Origin(); o != nil && len(o.Blocks) > 0 {
+			p.Funcs[fnKey(o)] = o
+		}
+	}
+	// generic methods that no loaded code instantiates are still built (and
+	// verified with the type parameter as an uninterpreted sort)
+	for _, sp := range p.Pkgs {
+		for _, mem := range sp.Members {
+			tn, ok := mem.(*ssa.Type)
+			if !ok {
+				continue
+			}
+			named, ok := tn.Type().(*types.Named)
+			if !ok || named.TypeParams().Len() == 0 {
+				continue
+			}
+			for i := 0; i < named.NumMethods(); i++ {
+				if f := prog.FuncValue(named.Method(i)); f != nil && len(f.Blocks) > 0 {
+					if _, dup := p.Funcs[fnKey(f)]; !dup {
+						p.Funcs[fnKey(f)] = f
+					}
+				}
+			}
+		}
 	}
 	// contract files
 	for _, pk := range pkgs {
